@@ -340,7 +340,7 @@ func c27GenStream(rnd *vRand, k int, family string) *c27Stream {
 		if nVideo == 0 {
 			nAudio = 2
 		}
-		if rnd.Chance(1, 2) {
+		if rnd.Chance(1, 3) {
 			s.SegDur = 3600 * 1000 * ms // one segment, closed by formatFMP4.close
 		}
 	}
@@ -389,7 +389,11 @@ func c27GenStream(rnd *vRand, k int, family string) *c27Stream {
 	}
 	// stream start: mostly positive timestamps; sometimes negative ones
 	t0 := int64(rnd.Intn(3000)) * ms
-	if rnd.Chance(1, 10) {
+	negChance := 10
+	if family != "" {
+		negChance = 3 // segments that end before time 0: the end of a segment starts at its start, not at 0
+	}
+	if rnd.Chance(1, negChance) {
 		t0 = -int64(rnd.Intn(3000)) * ms
 		s.Kind += "+negative-dts"
 	}
